@@ -507,6 +507,33 @@ func genM1(r *rand.Rand, p Profile, id string) Case {
 			t.cur = nv
 			ops = append(ops, []string{"crash", "reopen", "fast=true"})
 			t.dirty = false
+		case "expimp":
+			if len(t.versions) == 0 {
+				continue
+			}
+			v := t.versions[r.Intn(len(t.versions))]
+			if r.Intn(8) == 0 {
+				v = t.latest() + 1
+			}
+			ops = append(ops, []string{"expimp", i64(v), []string{"plain", "compress"}[r.Intn(2)], i64(r.Int63n(1 << 30))})
+			continue
+		case "costs":
+			tg := "w"
+			if len(t.versions) > 0 && r.Intn(4) != 0 {
+				tg = "v" + i64(t.versions[r.Intn(len(t.versions))])
+			}
+			ops = append(ops, []string{"hbound", tg})
+			if tg != "w" {
+				for i := 0; i < 3; i++ {
+					k := g.key()
+					if p.Order != "" && seq > 0 {
+						k = []byte(fmt.Sprintf("k%05d", r.Intn(seq)))
+					}
+					ops = append(ops, []string{"cost", tg, "get", hx(k)}, []string{"cost", tg, "has", hx(k)}, []string{"cost", tg, "gwi", hx(k)},
+						[]string{"cost", tg, "gbi", i64(int64(r.Intn(seq + 2)))}, []string{"cost", tg, "gproof", hx(k)})
+				}
+			}
+			continue
 		case "changes":
 			if len(t.versions) == 0 {
 				continue
